@@ -172,6 +172,7 @@ def run_check(prop: str, tier: str, seed: int, scratch: str) -> int:
             if bad:
                 xviol.append({"s": s, "w": [ws[0], w], "keys": bad})
     hs_of = {(s, w): d.get("hs") for s, byw in scen.items() for w, d in byw.items()}
+    cfg["ctx"] = {"per_group": per_group, "nworkers": nworkers, "tier": tier, "prop": prop, "seed": seed}
     res = report(prop, tier, seed, scratch, known, viols, xviol, cfg, hs_of)
     write_evidence(prop, tier, seed, t0, scen, stats, hashseeds, viols, xviol, xcompared, res)
     return res["exit"]
@@ -209,6 +210,13 @@ def report(prop: str, tier: str, seed: int, scratch: str, known: list[dict], vio
             continue
         n += 1
         small, info = minimise_case(rep["case"], sig, scratch, cfg["min_runs"])
+        if small is None and not info.get("reproduced", True):
+            # not reproducible from the case alone: does it depend on what ran earlier in that interpreter?
+            prefix = find_prefix(cfg["ctx"], rep["s"], rep["w"], rep["case"], sig, scratch)
+            if prefix is not None:
+                rep["prefix"] = prefix
+                info["history_needed"] = True
+                info["prefix_len"] = len(prefix["ids"])
         final_sig = sig
         k = match_open(known, prop, final_sig)
         if k:
@@ -226,9 +234,50 @@ def report(prop: str, tier: str, seed: int, scratch: str, known: list[dict], vio
     if xviol:
         import pairs
 
-        xs = pairs.report_cross(prop, seed, tier, xviol, hs_of, scratch, known, out)
+        xs = pairs.report_cross(prop, seed, tier, xviol, hs_of, scratch, known, out, cfg.get("ctx"))
         out["exit"] = max(out["exit"], xs)
     return out
+
+
+def worker_range(ctx: dict, wid: int) -> tuple[int, int]:
+    nworkers, per_group = ctx["nworkers"], ctx["per_group"]
+    wave, w = divmod(wid, nworkers)
+    gid = wave * (nworkers // GROUP) + w // GROUP
+    return gid * per_group, (gid + 1) * per_group
+
+
+def prefix_candidates(ctx: dict, s: int, wid: int) -> list[dict]:
+    """Suffixes (length 1, 2, 4, ... all) of what worker `wid` executed before scenario s."""
+    from order import scenario_order
+
+    lo, hi = worker_range(ctx, wid)
+    order = scenario_order(lo, hi, ctx["seed"], wid)
+    if s not in order:
+        return []
+    before = order[: order.index(s)]
+    out, k = [], 1
+    while before:
+        ids = before[-k:]
+        out.append({"prop": ctx["prop"], "seed": ctx["seed"], "tier": ctx["tier"], "wid": wid, "ids": ids})
+        if k >= len(before):
+            break
+        k *= 2
+    return out
+
+
+def find_prefix(ctx: dict, s: int, wid: int, case: dict, sig: str, scratch: str) -> dict | None:
+    for prefix in prefix_candidates(ctx, s, wid):
+        tmp = os.path.join(scratch, "prefix-try.json")
+        with open(tmp, "w") as f:
+            json.dump({"case": case, "prefix": prefix}, f)
+        a = {"mode": "replay", "file": tmp, "out": tmp + ".out", "hashseed": case.get("hashseed"), "hard_timeout": 900}
+        try:
+            r = run_one(a, case.get("hashseed"), timeout=900)
+        except Harness:
+            continue
+        if any(v["sig"] == sig for v in r.get("viol", [])):
+            return prefix
+    return None
 
 
 def minimise_case(case: dict, sig: str, scratch: str, max_runs: int) -> tuple[dict | None, dict]:
@@ -253,6 +302,7 @@ def minimise_case(case: dict, sig: str, scratch: str, max_runs: int) -> tuple[di
         info["fresh_replay_reproduces"] = False
         info["replay_error"] = str(e)[:300]
     if not info["fresh_replay_reproduces"]:
+        info["reproduced"] = False
         return None, info
     return small, info
 
@@ -274,6 +324,9 @@ def write_replay(prop: str, seed: int, rep: dict, sig: str, small: dict | None, 
         "summary": summarise(case, sig),
         "case": case,
     }
+    if rep.get("prefix"):
+        doc["prefix"] = rep["prefix"]
+        doc["history_needed"] = "the violation does not occur when the case is executed alone in a fresh interpreter; it needs the listed scenarios to have been executed before it in the same interpreter (state kept by the code under test between calls)"
     with open(path, "w") as f:
         json.dump(doc, f, indent=1, sort_keys=True)
     return path
